@@ -126,12 +126,19 @@ class ReaderProduct(explorer.Product):
             child_r, child_m = o_r[1], o_m[1]
             if not isinstance(child_r, self.cls):
                 return f"slice returned {type(child_r).__name__}"
-            # the child must be indistinguishable from a fresh reader over the expected sub-range
-            if explorer.snapshot(child_r) != explorer.snapshot(self.cls(child_m.data)):
-                return (
-                    f"slice{op[1:]} is not a fresh reader over the clipped sub-range "
-                    f"{child_m.data.hex()}: {explorer.snapshot(child_r)!r}"
-                )
+            # the child must BEHAVE like a fresh reader over the expected clipped sub-range (how it represents the
+            # shared buffer is its own business): its whole content is compared here on a second, throw-away slice,
+            # and the exploration continues inside the child against the reference child
+            try:
+                probe = real.slice(op[1], op[2])
+                content = bytes(probe.get_bytes(len(self.data) + 5))
+                fresh = (probe.position, probe.remaining)
+            except Exception as e:  # noqa: BLE001
+                return f"reading a slice{op[1:]} raised {type(e).__name__}: {e}"
+            if content != child_m.data or fresh != (len(child_m.data), 0):
+                return f"slice{op[1:]} covers {content.hex()!r}, the clipped sub-range is {child_m.data.hex()!r}"
+            if explorer.snapshot(real) != before:
+                return f"reading from a slice{op[1:]} changed the parent reader"
             st["real"], st["model"] = child_r, child_m
             st["depth"] += 1
             return self._state_cmp(child_r, child_m)
